@@ -341,6 +341,63 @@ func storm(idx int64, r *rand.Rand) {
 	addVsRemove(idx, lr)
 	acquireVsRemove(idx, lr)
 	sharedBackingArray(idx, lr)
+	movedAndHomonymousPartitions(idx, lr)
+}
+
+// movedAndHomonymousPartitions: (a) a predicate partition that admitted requests in one strategy is removed (the removal
+// hands the object back) and added to another strategy: from then on its requests are charged to, and given back to, the
+// strategy it is registered with - afterwards both totals are zero and the new strategy lends its full limit.
+// (b) partitions are distinct objects even when they carry the same name (the name is a metric tag): adding a second
+// partition with a name already in use succeeds and its requests are admitted.
+func movedAndHomonymousPartitions(idx int64, lr *rand.Rand) {
+	mk := func(name, key string, pct float64) *strategy.PredicatePartition {
+		return strategy.NewPredicatePartitionWithMetricRegistry(name, pct, func(ctx context.Context) bool { return keyOf(ctx) == key }, core.EmptyMetricRegistryInstance)
+	}
+	L := 4 + lr.IntN(8)
+	s1, err1 := strategy.NewPredicatePartitionStrategyWithMetricRegistry([]*strategy.PredicatePartition{mk("a", "a", 0.25), mk("b", "b", 0.25)}, int32(L), core.EmptyMetricRegistryInstance)
+	s2, err2 := strategy.NewPredicatePartitionStrategyWithMetricRegistry([]*strategy.PredicatePartition{mk("c", "c", 0.25)}, int32(L), core.EmptyMetricRegistryInstance)
+	if err1 != nil || err2 != nil {
+		panic("c03 movedAndHomonymousPartitions: constructor refused")
+	}
+	for i := 0; i < 1+lr.IntN(3); i++ { // b admits (and gives back) in its first strategy
+		if t, ok := s1.TryAcquire(ctxKey("b")); ok {
+			t.Release()
+		}
+	}
+	removed, _ := s1.RemovePartitionsMatching(ctxKey("b"))
+	if len(removed) != 1 || !s2.AddPartition(removed[0]) {
+		rt.Violation("C03/predicate/removed-partition-cannot-be-added-to-another-strategy", idx, rt.J{"removed": len(removed)})
+		return
+	}
+	var toks []core.StrategyToken
+	for i := 0; i < L; i++ {
+		if t, ok := s2.TryAcquire(ctxKey("b")); ok {
+			toks = append(toks, t)
+		}
+	}
+	granted := len(toks)
+	for _, t := range toks {
+		t.Release()
+	}
+	rt.Count("partitions_moved_between_strategies", 1)
+	if granted != L || s2.BusyCount() != 0 || s1.BusyCount() != 0 {
+		rt.Violation("C03/predicate/partition-moved-to-another-strategy-is-not-accounted-there", idx, rt.J{"limit": L, "granted_to_the_moved_partition_in_its_new_strategy": granted,
+			"new_strategy_busy_after_all_released": s2.BusyCount(), "old_strategy_busy": s1.BusyCount()})
+		return
+	}
+	// (b)
+	twin := mk("a", "a2", 0.25) // same name as the registered "a", its own predicate
+	if !s1.AddPartition(twin) {
+		rt.Violation("C03/predicate/distinct-partition-with-a-name-in-use-not-added", idx, rt.J{"strategy": s1.String()})
+		return
+	}
+	t, ok := s1.TryAcquire(ctxKey("a2"))
+	rt.Count("partitions_added_under_a_name_in_use", 1)
+	if !ok {
+		rt.Violation("C03/predicate/request-of-an-added-partition-refused-while-idle", idx, rt.J{"strategy": s1.String()})
+		return
+	}
+	t.Release()
 }
 
 // sharedBackingArray: two predicate strategies are built from two sub-slices of one array of partitions (what a caller
